@@ -4,7 +4,7 @@ applied (used for behaviour-preserving rewrites, which must raise no alarm).  us
 import os, sys, json, shutil, subprocess, concurrent.futures
 V = os.path.dirname(os.path.dirname(os.path.abspath(__file__)))
 patch = os.path.abspath(sys.argv[1])
-root = '/tmp/patchrun'
+root = os.environ.get('PATCHRUN', '/tmp/patchrun_%d' % os.getpid())
 shutil.rmtree(root, ignore_errors=True); os.makedirs(root)
 shutil.copytree('/repo/src', root + '/src')
 r = subprocess.run(['patch', '-p1', '-s', '-d', root, '-i', patch], capture_output=True, text=True)
